@@ -299,10 +299,11 @@ static int upipe_trickp_sub_control(struct upipe *upipe,
  */
 static void upipe_trickp_sub_free(struct upipe *upipe)
 {
+    /* may log about the buffers still held */
+    upipe_trickp_sub_clean_input(upipe);
     upipe_throw_dead(upipe);
 
     upipe_trickp_sub_clean_output(upipe);
-    upipe_trickp_sub_clean_input(upipe);
     upipe_trickp_sub_clean_sub(upipe);
     upipe_trickp_sub_clean_urefcount(upipe);
     upipe_trickp_sub_free_void(upipe);
